@@ -1,6 +1,512 @@
-//! Harness for property C13 (stub: not built yet).
+//! Harness for property C13: "what validation accepts, storage returns unchanged; nothing invalid
+//! gets in".
+//!
+//! A case is a list of op lines (see `wire.rs`); every line is self-contained. For each line the
+//! harness (1) runs the real `anda_db_schema` code in-process, (2) asks the Lean model driver the
+//! same line and diffs the answers (correspondence), (3) evaluates the property on the
+//! implementation's answer with the independent oracle of `oracle.rs`.
+
+mod r#gen;
+mod oracle;
+mod wire;
+
+use anda_db_schema::{Document, DocumentOwned, FieldEntry, FieldType, FieldValue, FieldValueBudget, IndexedFieldValues, Schema};
+use std::panic::{AssertUnwindSafe, catch_unwind};
+use std::sync::Arc;
+use vh_common::{Args, ModelProc, Report, Rng, read_corpus, read_replay, serde_json::json};
+use wire::{Toks, parse_type, parse_value, show_type, show_value};
+
+// ------------------------------------------------------------------------------------ findings
+
+#[derive(Clone, Debug)]
+struct Finding {
+    oracle: bool, // false = model/impl disagreement
+    key: String,
+    what: String,
+    expected: String,
+    observed: String,
+}
+
+struct Eval {
+    impl_out: String,
+    findings: Vec<Finding>,
+    nontrivial: bool,
+    hits: Vec<String>,
+}
+
+fn schema_for(ft: &FieldType) -> Arc<Schema> {
+    let mut b = Schema::builder();
+    b.add_field(FieldEntry::new("v".into(), ft.clone()).expect("field entry")).expect("add field");
+    Arc::new(b.build().expect("schema"))
+}
+
+/// The JSON-clause hint for the model: bit patterns of every F64 in `v` for which the second
+/// clause of `is_f32_read_back` holds (computed by the harness's own reimplementation).
+fn hint_of(v: &FieldValue) -> String {
+    fn walk(v: &FieldValue, out: &mut Vec<u64>) {
+        match v {
+            FieldValue::F64(f) => {
+                if oracle::json_clause(*f) && !out.contains(&f.to_bits()) {
+                    out.push(f.to_bits());
+                }
+            }
+            FieldValue::Array(xs) => xs.iter().for_each(|x| walk(x, out)),
+            FieldValue::Map(m) => m.values().for_each(|x| walk(x, out)),
+            _ => {}
+        }
+    }
+    let mut out = Vec::new();
+    walk(v, &mut out);
+    if out.is_empty() { "-".into() } else { out.iter().map(|b| format!("{b:016x}")).collect::<Vec<_>>().join(",") }
+}
+
+pub fn line(op: &str, ft: &FieldType, v: &FieldValue) -> String {
+    format!("{op} {} {} {}", hint_of(v), show_type(ft), show_value(v))
+}
+
+/// encode → decode → `try_from_doc`, the storage read path of one field.
+fn load(ft: &FieldType, v: &FieldValue) -> Result<FieldValue, &'static str> {
+    let schema = schema_for(ft);
+    let mut fields = IndexedFieldValues::new();
+    fields.insert(0, FieldValue::U64(1));
+    fields.insert(1, v.clone());
+    let owned = DocumentOwned { fields };
+    let mut buf = Vec::new();
+    cbor2::to_writer(&owned, &mut buf).map_err(|_| "err:ser")?;
+    let back: DocumentOwned = cbor2::from_reader(&buf[..]).map_err(|_| "err:de")?;
+    let doc = Document::try_from_doc(schema, back).map_err(|_| "err:read")?;
+    doc.get_field("v").cloned().ok_or("err:read")
+}
+
+fn set(ft: &FieldType, v: &FieldValue) -> Option<FieldValue> {
+    let mut doc = Document::new(schema_for(ft));
+    doc.set_id(1);
+    match doc.set_field("v", v.clone()) {
+        Ok(_) => doc.get_field("v").cloned(),
+        Err(_) => None,
+    }
+}
+
+fn show_load(r: &Result<FieldValue, &'static str>) -> String {
+    match r {
+        Ok(v) => format!("ok {}", show_value(v)),
+        Err(e) => e.to_string(),
+    }
+}
+
+fn eval_line_inner(l: &str) -> Option<Eval> {
+    let mut ts = Toks::new(l);
+    let op = ts.next()?;
+    let _hint = ts.next()?;
+    let mut ev = Eval { impl_out: String::new(), findings: vec![], nontrivial: false, hits: vec![format!("op:{op}")] };
+    let mut fail = |key: String, what: &str, expected: String, observed: String| {
+        ev.findings.push(Finding { oracle: true, key, what: what.into(), expected, observed });
+    };
+    if op == "cx" {
+        let b = oracle::Budget { depth: ts.next()?.parse().ok()?, nodes: ts.next()?.parse().ok()?, array: ts.next()?.parse().ok()?, map: ts.next()?.parse().ok()? };
+        let v = parse_value(&mut ts)?;
+        if !ts.done() {
+            return None;
+        }
+        let got = v
+            .validate_complexity_with(FieldValueBudget { max_depth: b.depth, max_nodes: b.nodes, max_array_len: b.array, max_map_entries: b.map })
+            .is_ok();
+        let want = oracle::within_budget(&v, b);
+        if got && !want {
+            fail("budget-accepts-over".into(), "validate_complexity_with accepted a value over the budget", "err".into(), "ok".into());
+        }
+        if !got && want {
+            fail("budget-rejects-within".into(), "validate_complexity_with rejected a value within the budget", "ok".into(), "err".into());
+        }
+        ev.hits.push(if got { "cx:ok" } else { "cx:err" }.into());
+        ev.nontrivial = got;
+        ev.impl_out = if got { "ok" } else { "err" }.into();
+        return Some(ev);
+    }
+    let ft = parse_type(&mut ts)?;
+    let v = parse_value(&mut ts)?;
+    if !ts.done() {
+        return None;
+    }
+    match op {
+        "val" => {
+            let got = ft.validate(&v).is_ok();
+            let want = oracle::conforms(&ft, &v, false).and_then(|_| if oracle::within_budget(&v, oracle::DEFAULT_BUDGET) { Ok(()) } else { Err("budget".to_string()) });
+            if got && let Err(why) = &want {
+                fail(format!("validate-accepts-invalid:{why}"), "FieldType::validate accepted a value that violates its declared type", format!("err ({why})"), "ok".into());
+            }
+            if !got && want.is_ok() {
+                ev.hits.push("note:valid-rejected".into());
+            }
+            ev.hits.push(if got { "val:ok" } else { "val:err" }.into());
+            ev.nontrivial = got;
+            ev.impl_out = if got { "ok" } else { "err" }.into();
+        }
+        "norm" => {
+            let mut w = v.clone();
+            ft.normalize(&mut w);
+            // normalisation never changes the data, and never makes a conforming value non-conforming
+            if oracle::conforms(&ft, &v, false).is_ok() {
+                if let Err(why) = oracle::conforms(&ft, &w, false) {
+                    fail(format!("normalize-breaks-valid:{why}"), "normalize turned a conforming value into a non-conforming one", "conforming".into(), show_value(&w));
+                }
+                if !oracle::same_data(&ft, &v, &w) {
+                    fail("normalize-changes-data".into(), "normalize changed the data of a conforming value", show_value(&v), show_value(&w));
+                }
+            }
+            ev.nontrivial = !oracle::same_bits(&v, &w);
+            ev.hits.push(if ev.nontrivial { "norm:changed" } else { "norm:same" }.into());
+            ev.impl_out = show_value(&w);
+        }
+        "prune" => {
+            let mut w = v.clone();
+            ft.prune_undeclared(&mut w);
+            if oracle::conforms(&ft, &v, false).is_ok() && !oracle::same_bits(&v, &w) {
+                fail("prune-changes-valid".into(), "prune_undeclared changed a conforming value", show_value(&v), show_value(&w));
+            }
+            ev.nontrivial = !oracle::same_bits(&v, &w);
+            ev.hits.push(if ev.nontrivial { "prune:changed" } else { "prune:same" }.into());
+            ev.impl_out = show_value(&w);
+        }
+        "rt" => match set(&ft, &v) {
+            None => {
+                ev.hits.push("rt:rejected".into());
+                ev.impl_out = "err".into();
+            }
+            Some(stored) => {
+                // nothing invalid gets in
+                if let Err(why) = oracle::field_conforms(&ft, &stored, false) {
+                    fail(format!("set-accepts-invalid:{why}"), "Document::set_field accepted a value that violates its declared type", format!("err ({why})"), format!("ok {}", show_value(&stored)));
+                } else if let Err(why) = oracle::field_conforms(&ft, &stored, true) {
+                    fail(
+                        format!("stored-not-declared-variant:{why}"),
+                        "Document::set_field stored a value that is not in the schema's declared variant",
+                        "the declared variant".into(),
+                        show_value(&stored),
+                    );
+                }
+                if oracle::field_conforms(&ft, &v, false).is_ok() && !oracle::same_data(&ft, &v, &stored) {
+                    fail("set-changes-data".into(), "the stored value is not the written value", show_value(&v), show_value(&stored));
+                }
+                let r = load(&ft, &stored);
+                match &r {
+                    Ok(read) => {
+                        if !oracle::same_declared(&ft, &stored, read) {
+                            fail("read-differs".into(), "the value read back from the stored form differs from the written one", show_value(&stored), show_value(read));
+                        }
+                        if let Err(why) = oracle::field_conforms(&ft, read, false) {
+                            fail(format!("read-invalid:{why}"), "the value read back is not valid for its type", "valid".into(), show_value(read));
+                        }
+                        ev.nontrivial = true;
+                        ev.hits.push("rt:roundtrip".into());
+                    }
+                    Err("err:ser") => {
+                        // refused loudly at encoding time: the document never reaches storage
+                        ev.hits.push("rt:unserializable".into());
+                    }
+                    Err(e) => {
+                        fail(format!("accepted-then-unreadable:{e}"), "accepted on write but rejected on read", "ok".into(), e.to_string());
+                    }
+                }
+                ev.impl_out = format!("ok {} | {}", show_value(&stored), show_load(&r));
+            }
+        },
+        "load" => {
+            let r = load(&ft, &v);
+            if let Ok(read) = &r {
+                if let Err(why) = oracle::field_conforms(&ft, read, false) {
+                    fail(format!("read-accepts-invalid:{why}"), "try_from_doc produced a value that violates its declared type", format!("err ({why})"), show_value(read));
+                }
+                ev.nontrivial = true;
+            }
+            ev.hits.push(format!("load:{}", if r.is_ok() { "ok" } else { r.as_ref().unwrap_err() }));
+            ev.impl_out = show_load(&r);
+        }
+        _ => return None,
+    }
+    Some(ev)
+}
+
+fn eval_line(l: &str) -> Eval {
+    match catch_unwind(AssertUnwindSafe(|| eval_line_inner(l))) {
+        Ok(Some(ev)) => ev,
+        Ok(None) => Eval { impl_out: "bad-op".into(), findings: vec![], nontrivial: false, hits: vec!["bad-op".into()] },
+        Err(_) => Eval {
+            impl_out: "panic".into(),
+            findings: vec![Finding { oracle: true, key: "panic".into(), what: "the code under test panicked".into(), expected: "no panic".into(), observed: "panic".into() }],
+            nontrivial: false,
+            hits: vec!["panic".into()],
+        },
+    }
+}
+
+/// All findings of one line (oracle + correspondence).
+fn check_line(l: &str, model: &mut Option<ModelProc>) -> (Eval, Option<String>) {
+    let mut ev = eval_line(l);
+    let mut model_out = None;
+    if let Some(m) = model.as_mut() {
+        let out = m.ask(l);
+        if out != ev.impl_out {
+            ev.findings.push(Finding {
+                oracle: false,
+                key: format!("disagree:{}", l.split(' ').next().unwrap_or("")),
+                what: "Lean model and implementation differ".into(),
+                expected: out.clone(),
+                observed: ev.impl_out.clone(),
+            });
+        }
+        model_out = Some(out);
+    }
+    (ev, model_out)
+}
+
+// ------------------------------------------------------------------------------------ shrinking
+
+/// Structurally smaller (type, value) pairs.
+fn shrink_candidates(ft: &FieldType, v: &FieldValue) -> Vec<(FieldType, FieldValue)> {
+    let mut out = Vec::new();
+    match (ft, v) {
+        (FieldType::Option(t), v) if *v != FieldValue::Null => out.push(((**t).clone(), v.clone())),
+        (FieldType::Array(ts), FieldValue::Array(vs)) => {
+            if ts.len() == 1 {
+                for x in vs {
+                    out.push((ts[0].clone(), x.clone()));
+                }
+                for i in 0..vs.len() {
+                    let mut w = vs.clone();
+                    w.remove(i);
+                    out.push((ft.clone(), FieldValue::Array(w)));
+                }
+            } else if ts.len() >= 2 {
+                for (t, x) in ts.iter().zip(vs) {
+                    out.push((t.clone(), x.clone()));
+                }
+            } else {
+                for i in 0..vs.len() {
+                    let mut w = vs.clone();
+                    w.remove(i);
+                    out.push((ft.clone(), FieldValue::Array(w)));
+                }
+            }
+            for (i, x) in vs.iter().enumerate() {
+                let t = if ts.len() == 1 { ts.first() } else { ts.get(i) };
+                if let Some(t) = t {
+                    for (t2, x2) in shrink_candidates(t, x) {
+                        let mut nts = ts.clone();
+                        let mut w = vs.clone();
+                        if ts.len() == 1 && vs.len() > 1 {
+                            continue;
+                        }
+                        let ti = if ts.len() == 1 { 0 } else { i };
+                        nts[ti] = t2;
+                        w[i] = x2;
+                        out.push((FieldType::Array(nts), FieldValue::Array(w)));
+                    }
+                }
+            }
+        }
+        (FieldType::Map(m), FieldValue::Map(vals)) => {
+            let w = r#gen::is_wildcard(m);
+            for (k, x) in vals {
+                if let Some(t) = w.map(|(_, t)| t).or_else(|| m.get(k)) {
+                    out.push((t.clone(), x.clone()));
+                }
+                let mut nv = vals.clone();
+                nv.remove(k);
+                out.push((ft.clone(), FieldValue::Map(nv)));
+            }
+            if w.is_none() {
+                for k in m.keys() {
+                    if m.len() > 1 {
+                        let mut nm = m.clone();
+                        nm.remove(k);
+                        let mut nv = vals.clone();
+                        nv.remove(k);
+                        out.push((FieldType::Map(nm), FieldValue::Map(nv)));
+                    }
+                }
+            }
+        }
+        _ => {}
+    }
+    out
+}
+
+fn shrink_line(l: &str, f: &Finding, model: &mut Option<ModelProc>) -> String {
+    let mut ts = Toks::new(l);
+    let (Some(op), Some(_)) = (ts.next(), ts.next()) else { return l.to_string() };
+    if op == "cx" {
+        return l.to_string();
+    }
+    let (Some(mut ft), Some(mut v)) = (parse_type(&mut ts), parse_value(&mut ts)) else { return l.to_string() };
+    let mut runs = 0;
+    'outer: loop {
+        for (t2, v2) in shrink_candidates(&ft, &v) {
+            runs += 1;
+            if runs > 400 {
+                break 'outer;
+            }
+            let cand = line(op, &t2, &v2);
+            let (ev, _) = check_line(&cand, model);
+            if ev.findings.iter().any(|g| g.oracle == f.oracle && g.key == f.key) {
+                ft = t2;
+                v = v2;
+                continue 'outer;
+            }
+        }
+        break;
+    }
+    line(op, &ft, &v)
+}
+
+// ----------------------------------------------------------------------------------- generation
+
+fn gen_case(seed: u64, i: u64) -> Vec<String> {
+    let mut r = Rng::for_case(seed, i);
+    let r = &mut r;
+    let mut ops = Vec::new();
+    if i % 97 == 13 {
+        let (ft, v) = r#gen::budget_case(r);
+        ops.push(line("val", &ft, &v));
+        ops.push(line("rt", &ft, &v));
+        return ops;
+    }
+    let depth = 1 + r.below(4) as u32;
+    let ft = r#gen::gen_type(r, depth);
+    let shapes = *r.pick(&[0u64, 0, 2, 8]);
+    let valid = r#gen::gen_valid(r, &ft, shapes);
+    let v = match r.below(10) {
+        0..=4 => valid,
+        5..=8 => r#gen::mutate(r, &ft, &valid),
+        _ => r#gen::gen_any(r, 2),
+    };
+    ops.push(line("val", &ft, &v));
+    ops.push(line("norm", &ft, &v));
+    ops.push(line("rt", &ft, &v));
+    ops.push(line("load", &ft, &v));
+    if r.chance(1, 2) {
+        ops.push(line("prune", &ft, &v));
+    }
+    if r.chance(1, 3) {
+        // the complexity pass alone, against a small random budget
+        let w = if r.chance(1, 2) { v.clone() } else { r#gen::gen_any(r, 3) };
+        ops.push(format!("cx - {} {} {} {} {}", r.below(4), 1 + r.below(12), r.below(5), r.below(5), show_value(&w)));
+    }
+    ops
+}
+
+// ----------------------------------------------------------------------------------------- main
+
+fn run_case(name: &str, ops: &[String], model: &mut Option<ModelProc>, rep: &mut Report) {
+    for l in ops {
+        let (ev, model_out) = check_line(l, model);
+        if model_out.is_some() {
+            rep.model_compared += 1;
+        }
+        rep.case(&format!("{l} => {}", ev.impl_out), ev.nontrivial);
+        for h in &ev.hits {
+            rep.hit(h);
+        }
+        if ev.impl_out == "bad-op" {
+            rep.notes.push(format!("unparsable op in {name}: {l}"));
+        }
+        rep.sample(json!({"case": name, "op": l, "impl": ev.impl_out, "model": model_out}));
+        let mut seen = std::collections::BTreeSet::new();
+        for f in &ev.findings {
+            if !seen.insert((f.oracle, f.key.clone())) {
+                continue;
+            }
+            let small = shrink_line(l, f, model);
+            let (ev2, _) = check_line(&small, model);
+            let g = ev2.findings.iter().find(|g| g.oracle == f.oracle && g.key == f.key).unwrap_or(f);
+            if f.oracle {
+                rep.oracle_failure(&g.key, &g.what, &[small.clone()], &g.expected, &g.observed);
+            } else {
+                rep.disagreement(&g.what, &[small.clone()], &g.expected, &g.observed);
+            }
+        }
+    }
+}
+
 fn main() {
-    let a = vh_common::Args::parse();
-    let r = vh_common::Report::new("C13", &a, "stub");
-    r.write(&a);
+    let args = Args::parse();
+    // the code under test reports errors as values; keep panics of the harness visible but quiet
+    std::panic::set_hook(Box::new(|_| {}));
+    let mut rep = Report::new(
+        "C13",
+        &args,
+        "an op counts as non-trivial when the implementation took a non-error branch that returns a value: \
+         validate/complexity accepted, normalize/prune changed the value, set_field accepted and the stored \
+         form was read back, or try_from_doc produced a document; distinctness is by canonical op text + answer",
+    );
+    rep.max_samples = 8;
+    let mut model = ModelProc::from_args(&args);
+
+    if let Some(p) = &args.replay {
+        let ops = read_replay(p);
+        run_case("replay", &ops, &mut model, &mut rep);
+        rep.write(&args);
+        return;
+    }
+    if let Some(dir) = &args.corpus {
+        for (name, ops) in read_corpus(dir) {
+            rep.hit("corpus-file");
+            run_case(&name, &ops, &mut model, &mut rep);
+        }
+    }
+    let n = args.budget(6_000, 400_000);
+    for i in 0..n {
+        let ops = gen_case(args.seed, i);
+        run_case(&format!("seed{}-case{}", args.seed, i), &ops, &mut model, &mut rep);
+        if rep.oracle_failures.len() >= 20 && rep.disagreements.len() >= 20 {
+            break;
+        }
+    }
+    float_laws(&args, &mut rep);
+    rep.write(&args);
+}
+
+/// The IEEE facts the Lean theorems take as hypotheses (`FloatModel.Lawful`), measured on real
+/// floats: never proved, reported as measured.
+fn float_laws(args: &Args, rep: &mut Report) {
+    let mut r = Rng::new(args.seed ^ 0xF10A7);
+    let n = args.budget(200_000, 5_000_000);
+    let (mut bad, mut checked) = (0u64, 0u64);
+    for i in 0..n {
+        let x = if (i as usize) < r#gen::F32_EDGES.len() { r#gen::F32_EDGES[i as usize] } else { r.next_u64() as u32 };
+        let f = f32::from_bits(x);
+        if f.is_nan() {
+            continue;
+        }
+        checked += 1;
+        let w = f as f64;
+        // widen_not_nan, narrow_widen, read-back of a widening, inf/finite consistency
+        let ok = !w.is_nan() && (w as f32).to_bits() == x && oracle::f32_read_back(w) && !(f.is_infinite() && w.is_finite());
+        if !ok {
+            bad += 1;
+        }
+    }
+    for i in 0..n {
+        let d = if (i as usize) < r#gen::F64_EDGES.len() { r#gen::F64_EDGES[i as usize] } else { r.next_u64() };
+        let v = f64::from_bits(d);
+        if v.is_nan() {
+            continue;
+        }
+        checked += 1;
+        // narrow_not_nan; a read-back shape narrows to a value that widens / prints back to it
+        let f = v as f32;
+        let mut ok = !f.is_nan();
+        if oracle::f32_read_back(v) {
+            ok &= (f as f64) == v || oracle::json_clause(v);
+            ok &= !(f.is_infinite() && v.is_finite());
+        }
+        if !ok {
+            bad += 1;
+        }
+    }
+    rep.measured.insert("float_laws_checked".into(), json!(checked));
+    rep.measured.insert("float_laws_violated".into(), json!(bad));
+    if bad > 0 {
+        rep.notes.push(format!("{bad} sampled floats violate a FloatModel law the theorems assume"));
+    }
 }
